@@ -70,8 +70,10 @@ Definition check_case (c : case) : N :=
   | CBind d rq regs fmts floats valid ran o =>
     let O := mk_oracles regs fmts floats in
     let pre := request_wf rq && oracle_complete O d rq fmts floats in
+    (* the property: the observable is what the specification demands, and never a panic
+       (also where the specification has no opinion: an ill-typed default consulted) *)
     verdict (pre && outcome_matches (bind_param O d rq valid) ran o)
-            (outcome_matches (spec_outcome O d rq valid) ran o)
+            (outcome_matches (spec_outcome O d rq valid) ran o && negb (match o with OPanic => true | _ => false end))
   | CCanon sent stored => verdict (bytes_eqb (canon_key sent) stored) true
   | CInt txt r =>
     verdict (opt_eqb Z.eqb (parse_int_dec txt) r)
